@@ -6,6 +6,7 @@ theorems.
 import MosaikModel.WF
 import MosaikProofs.Sched.Deadlock
 import MosaikProofs.Sched.WF
+import MosaikProofs.Sched.Buffer
 namespace Mosaik
 
 theorem Cfg.sim_of_ge {cfg : Cfg} {p : Sid} (h : cfg.n ≤ p) : cfg.sim p = {} := by
@@ -54,11 +55,31 @@ theorem flatB_sound {cfg : Cfg} {rk : List Nat} (h : cfg.flatB rk = true) : Flat
     · exact absurd hz h1
     · exact h1
 
+theorem pushB_sound {cfg : Cfg} (h : cfg.pushB = true) : PushOk cfg := by
+  simp only [Cfg.pushB, List.all_eq_true, List.mem_range] at h
+  have unpack := fun p hp => by
+    have := h p hp
+    simp only [Cfg.pushSim, Bool.and_eq_true, List.all_eq_true, List.any_eq_true, beq_iff_eq, decide_eq_true_eq] at this
+    exact this
+  constructor
+  · intro p hp e he; exact (unpack p hp e he).1.1.1
+  · intro p hp e he; exact ⟨(unpack p hp e he).1.1.2, (unpack p hp e he).1.2⟩
+  · intro p hp e he
+    obtain ⟨qd, hqd, heq, hle⟩ := (unpack p hp e he).2
+    refine ⟨qd.2, ?_, TI.leB_sound hle⟩
+    have : qd = (p, qd.2) := by rw [← heq]
+    rw [← this]; exact hqd
+
 /-- what a run of the driver's check establishes: the deadlock-freedom theorem applies -/
 theorem deadlock_free_of_checks {cfg : Cfg} (h1 : cfg.wfB = true) (h2 : cfg.shapeB = true) (h3 : cfg.flatB cfg.zeroRank = true)
     {s : State} (hr : Reach cfg s) (hnf : s.failed = none) (hsome : ∃ p, p < cfg.n ∧ (s.sims p).pc ≠ .done) :
     (∃ p, (step cfg s (.start p)).isSome = true) ∨ Moves cfg s ∨
     (∃ p, p < cfg.n ∧ ((s.sims p).pc = .inStep ∨ (s.sims p).pc = .inGet)) :=
   deadlock_free_flat (wfB_sound h1) (shapeB_sound h2) (flatB_sound h3) hr hnf hsome
+
+/-- … and the no-late-arrival invariant holds -/
+theorem bufOk_of_checks {cfg : Cfg} (h1 : cfg.wfB = true) (h2 : cfg.shapeB = true) (h3 : cfg.flatB cfg.zeroRank = true)
+    (h4 : cfg.pushB = true) {s : State} (hr : Reach cfg s) (hnf : s.failed = none) : ∀ q, q < cfg.n → BufOk s q :=
+  reach_bufOk (wfB_sound h1) (shapeB_sound h2) (flatB_sound h3) (pushB_sound h4) hr hnf
 
 end Mosaik
